@@ -560,7 +560,18 @@ static void gen_junk_resolv(vh_rng_t *r, int cls, cfg_bb_t *l)
       break;
     case J_NS_BAD:
       gen_line_prefix(r, l, "nameserver");
-      cfg_bb_str(l, PICK(r, badns));
+      if (vh_chance(r, 1, 4)) {
+        /* an interface scope far longer than any interface name, in each server syntax */
+        static const int lens[] = { 15, 16, 17, 19, 20, 21, 31, 40, 64, 128, 200 };
+        int              n      = lens[vh_below(r, sizeof(lens) / sizeof(lens[0]))];
+        int              form   = (int)vh_below(r, 3);
+        /* (link-local only: on other addresses a scope is documented to be ignored, the server itself is valid) */
+        cfg_bb_str(l, form == 0 ? "dns://[fe80::1%" : form == 1 ? "[fe80::1%" : "fe80::1%");
+        gen_alnum(r, l, n);
+        cfg_bb_str(l, form == 0 ? "]:53" : form == 1 ? "]:53" : "");
+      } else {
+        cfg_bb_str(l, PICK(r, badns));
+      }
       break;
     case J_SORTLIST_BAD:
       gen_line_prefix(r, l, "sortlist");
@@ -1054,7 +1065,8 @@ static void gen_fuzz_text(vh_rng_t *r, cfg_bb_t *out, int kind_hint)
     "dns://", "?tcpport=", "4294967295", "4294967296", "18446744073709551616", "-1", "0", "99999",
     "65536", "2147483648", "example.com", "files", "dns", "bind", "local", "255.255.255.255/33",
     "localhost", "www", "=", "\\", "\"", "%25", "%00", "[fe80::1]:53%eth0", "1.2.3.4:65535",
-    "0x10", "1e9", "+5", "  ", "a.b.c.d.e.f.g.h.i.j.k.l.m.n.o.p"
+    "0x10", "1e9", "+5", "  ", "a.b.c.d.e.f.g.h.i.j.k.l.m.n.o.p", "dns://[fe80::1%", "dns://[fe80::1%abcdefghijklmnopqrstuvwxyz0123456789]",
+    "abcdefghijklmnopqrstuvwxyzabcdefghijklmnopqrstuvwxyzabcdefghijklmnopqrstuvwxyz"
   };
   int n = vh_range(r, 0, 40), i;
   (void)kind_hint;
